@@ -8,7 +8,7 @@ EXPLANATION = ('Built with all three I/O features. Per save function (value-flow
                'length s2; values go through Into::<f64>::into under the bound T: Into<f64> (lossless by type) or Display (CSV); every fallible call is propagated with `?` '
                '(none unwrapped, expected or dropped); flush / finish / close on the writer is the last writer operation before Ok(()). Byte-level round trips through the '
                'external readers are not decided.')
-FLOORS = {'obligations': 34}   # counted on the reference tree; fewer instantiated obligations is reported, never passed silently
+FLOORS = {'obligations': 44}   # counted on the reference tree; fewer instantiated obligations is reported, never passed silently
 TECHNIQUE = 'value-flow sequence terms (labels vs values), affine offset forms, result-discipline and ordering rules over the evaluated bodies'
 FALLIBLE = ('std::fs::File::create', 'csv::Writer::write_record', 'csv::Writer::flush', 'arrow::array::RecordBatch::try_new', 'arrow::arrow_ipc::writer::FileWriter::try_new',
             'arrow::arrow_ipc::writer::FileWriter::write', 'arrow::arrow_ipc::writer::FileWriter::finish', 'parquet::arrow::ArrowWriter::try_new', 'parquet::arrow::ArrowWriter::write',
@@ -37,6 +37,15 @@ def errdisc(ctx, pfx, A, ev, sp, closer):
     ctx.check(pfx + '.errdisc', A, 'errors', not bad and not unw and len(calls) >= 3, expected='every fallible call propagated with `?` (or map_err + ?); nothing unwrapped/expected/dropped',
               found='%d fallible calls; %s' % (len(calls), '; '.join(bad + ['unwrap at %s' % d[2] for d in unw]) or 'all propagated'), sp=sp,
               why='a path that cannot be written must yield an error, not a panic or a partial success')
+    opens = [e for e in ev.vf.events if (e.key or '').startswith('std::fs::')]
+    ctx.check(pfx + '.open_truncates', A, 'open', len(opens) == 1 and opens[0].key == 'std::fs::File::create' and not opens[0].pc and not opens[0].loops,
+              expected='the output is opened exactly once with File::create (creates or TRUNCATES)', found=', '.join(e.key for e in opens) or 'no file opened', sp=sp,
+              why='an existing longer file opened without truncation keeps its tail (e.g. the old Parquet footer): a reader then sees the previous export although Ok was returned')
+    b_ = ev.body
+    ns = narrowing_sites(ctx, [b_])
+    ctx.check(pfx + '.no_narrowing', A, 'precision', not ns, expected='stored values reach the file without a narrowing conversion (Into<f64> / Display of the stored element; a dtype mismatch is an error, not a silent cast)',
+              found='; '.join('%s at %s' % (d, s_) for _, d, s_ in ns) or 'none', sp=sp,
+              why='the file must hold exactly the stored values')
     writer_ops = [e for e in ev.vf.events if e.key in FALLIBLE and e.key != 'std::fs::File::create' and 'try_new' not in e.key]
     last = writer_ops[-1] if writer_ops else None
     ctx.check(pfx + '.flush_dominates_ok', A, 'flush', last is not None and last.key == closer and not last.pc and not last.loops and sum(1 for e in writer_ops if e.key == closer) == 1,
